@@ -179,13 +179,18 @@ class Ctx:
     def go_build(self, cmd):
         """Build harness/cmd/<cmd> against /repo's working tree (hooks on)."""
         hdir = os.path.join(ROOT, "harness")
+        # a private go.mod/go.sum pair pointing at the tree under test (default /repo), so that the
+        # same harness sources can also be built against a scratch worktree (VERIF_REPO=/tmp/wt)
+        modf = os.path.join(self.tmp, "go.mod")
+        gm = open(os.path.join(hdir, "go.mod")).read().replace("=> /repo", "=> " + REPO)
+        open(modf, "w").write(gm)
         try:
-            shutil.copyfile(os.path.join(REPO, "go.sum"), os.path.join(hdir, "go.sum"))
+            shutil.copyfile(os.path.join(REPO, "go.sum"), os.path.join(self.tmp, "go.sum"))
         except OSError:
             pass
         out_bin = os.path.join(self.tmp, "h_" + cmd)
-        rc, out, dt = sh(["go", "build", "-tags", "verif", "-o", out_bin, "./cmd/" + cmd], cwd=hdir, env=GOENV,
-                         timeout=1500)
+        rc, out, dt = sh(["go", "build", "-modfile", modf, "-tags", "verif", "-o", out_bin, "./cmd/" + cmd],
+                         cwd=hdir, env=GOENV, timeout=1500)
         return (out_bin if rc == 0 else None), out, dt
 
     def build_model(self, comp):
@@ -454,7 +459,13 @@ def diff_results(cases_path, impl_path, model_path, compare=None):
 
 
 def load_known_findings():
+    res = []
     p = os.path.join(ROOT, "known_findings.json")
-    if not os.path.exists(p):
-        return []
-    return json.load(open(p)).get("findings", [])
+    if os.path.exists(p):
+        res += json.load(open(p)).get("findings", [])
+    d = os.path.join(ROOT, "known_findings")
+    if os.path.isdir(d):
+        for fn in sorted(os.listdir(d)):
+            if fn.endswith(".json"):
+                res += json.load(open(os.path.join(d, fn))).get("findings", [])
+    return res
